@@ -180,7 +180,22 @@ func TestC16_OutgoingFramesWellFormed(t *testing.T) {
 				if fin {
 					f.SetFIN()
 				}
-				f.SetOpcode(websocket.Opcode(op))
+				if rapid.Bool().Draw(t, "namedSetter") {
+					switch op {
+					case rfc6455.OpText:
+						f.SetText()
+					case rfc6455.OpBinary:
+						f.SetBinary()
+					case rfc6455.OpPing:
+						f.SetPing()
+					case rfc6455.OpPong:
+						f.SetPong()
+					default:
+						f.SetContinuation()
+					}
+				} else {
+					f.SetOpcode(websocket.Opcode(op))
+				}
 				mode := rapid.SampledFrom([]string{"payload", "payload", "empty", "none"}).Draw(t, "payloadMode")
 				var b []byte
 				switch mode {
